@@ -2,6 +2,7 @@ package rules
 
 import (
 	"go/ast"
+	"go/token"
 
 	"kadcheck/internal/eng"
 )
@@ -106,6 +107,11 @@ func runC10(c *Ctx) {
 	// per-peer sender (one retry, flag set before it) — C11.R2
 	c.Rule("R8")
 	c.Share("C11", "R2")
+
+	// R9 no answer (or silence) of a probed peer uses up an admission slot for good: every slot
+	// taken for a lookup check is given back when the check ends, whatever its outcome
+	c.Rule("R9")
+	c10AdmissionSlots(c)
 
 	// R6 no response sequence makes the value search close its stop channel twice (a panic):
 	// the abort verdict is kept and ends the processing loop before the next response (shared with C04.R2)
@@ -695,4 +701,70 @@ func paramAt(f *eng.Func, i int) *eng.Var {
 		}
 	}
 	return nil
+}
+
+// c10AdmissionSlots: peerFound takes a slot (lookupCheckCapacity--) only when one is free, hands
+// it to exactly the goroutine it starts next, and that goroutine gives it back
+// (lookupCheckCapacity++) on every path to its end.
+func c10AdmissionSlots(c *Ctx) {
+	const fld = "dht.IpfsDHT.lookupCheckCapacity"
+	f := c.Fn("(*dht.IpfsDHT).peerFound")
+	cf := f.CFG()
+	info := f.Info()
+	steps := func(g *eng.Func, tok token.Token) []eng.Loc {
+		var out []eng.Loc
+		g.Walk(func(n ast.Node) bool {
+			if st, ok := n.(*ast.IncDecStmt); ok && st.Tok == tok && eng.IsField(g.Info(), st.X, fld) {
+				out = append(out, g.CFG().LocsOf(st)...)
+			}
+			return true
+		})
+		return out
+	}
+	decs := steps(f, token.DEC)
+	if !c.Check(K(f.Name, "takes a slot"), f.Pos(), len(decs) == 1, "peerFound takes an admission slot in one place", "found "+itoa(len(decs))) {
+		return
+	}
+	// spawns whose goroutine returns the slot on every path
+	var goodSpawns []eng.Loc
+	nSpawn := 0
+	for _, gs := range c.P.GoSites() {
+		if gs.F != f && gs.F.Root() != f {
+			continue
+		}
+		g := gs.Lit
+		if g == nil {
+			g = gs.Target
+		}
+		if g == nil {
+			continue
+		}
+		nSpawn++
+		gcf := g.CFG()
+		incs := steps(g, token.INC)
+		ok, w := gcf.MustPass(gcf.Entry(), eng.LocSet(gcf.Exits(false)...), eng.LocSet(incs...))
+		c.CheckW(K(g.Name, "gives the slot back"), g.Pos(), ok && len(incs) >= 1, "the lookup-check goroutine returns its admission slot on every path to its end — success, failure, timeout alike (a slot lost per failed probe ends with no peer ever being admitted again)", "an exit of the goroutine is reachable without lookupCheckCapacity++", gcf.DescribePath(w))
+		if ok && len(incs) >= 1 {
+			goodSpawns = append(goodSpawns, cf.LocsOf(gs.Node)...)
+		}
+	}
+	c.Check(K(f.Name, "starts the check"), f.Pos(), nSpawn == 1, "peerFound starts the lookup check in one goroutine", "found "+itoa(nSpawn)+" spawns")
+	ok, w := cf.MustPass(decs[0], eng.LocSet(cf.Exits(false)...), eng.LocSet(goodSpawns...))
+	c.CheckW(K(f.Name, "slot handed to the check"), f.Pos(), ok, "once a slot is taken, the goroutine that will return it is started on every path", "peerFound can return after taking a slot without starting the check", cf.DescribePath(w))
+	free, _ := cf.Guarded(decs[0], func(ft eng.Fact) bool {
+		x, op, y, isRel := ft.Rel()
+		if !isRel {
+			return false
+		}
+		if eng.IsField(info, y, fld) {
+			x, y = y, x
+			op = map[token.Token]token.Token{token.LSS: token.GTR, token.GTR: token.LSS, token.LEQ: token.GEQ, token.GEQ: token.LEQ, token.EQL: token.EQL, token.NEQ: token.NEQ}[op]
+		}
+		if !eng.IsField(info, x, fld) {
+			return false
+		}
+		v, isC := eng.ConstInt(info, y)
+		return isC && ((v == 0 && (op == token.NEQ || op == token.GTR)) || (v == 1 && op == token.GEQ))
+	})
+	c.Check(K(f.Name, "slot taken only when free"), f.Pos(), free, "a slot is taken only when the counter is positive", "decrement not guarded by lookupCheckCapacity != 0")
 }
